@@ -38,6 +38,13 @@ TRACKER_ASSUME = [
     "time.Now() inside the correlator is bracketed by the harness' own clock readings (cut-offs always fall between two calls)",
     "theorems are about the writer that never fails; write failures are covered by the model and the per-step correspondence, and by C15",
 ]
+VOLUME_ASSUME = ("volume family (oracle only, no Coq cases; harness/tracker/volume.go): histories of thousands to 10^5 operations - a LIFETIME part (rounds of "
+                 "cron-like sessions holding events, thrown away by the session sweep; rounds of unclaimed logins thrown away by the login sweep; cumulative counts "
+                 "1000 ... 16384 quick, up to 131072 thorough, never more than a few hundred pending at once), a TABLE part (255 ... 4096 quick, up to 16384 thorough: "
+                 "logins waiting at the same time, login-less sessions open at the same time, events held by one session; sizes around powers of two and ten, each "
+                 "dimension once per run at the tier's largest size), ordinary probe sessions started and completed all along, and an ordinary small history plus the "
+                 "other halves of some waiting logins / open sessions at the end; judged by the property's oracle from the history alone, every call under the "
+                 "watchdog; the concurrent stages run their last programs on a correlator filled the same way (255 ... 2049 quick, up to 4097 thorough; every schedule of such a program fills the tables anew)")
 TRACKER_MODELLED = ["processors/auditd/sessiontracker/sessiontracker.go (RemoteLogin, AuditdEvent, both cleanups, writeAndClearCache)"]
 
 
@@ -54,8 +61,8 @@ DAEMON_ASSUME = ("end-to-end stage: the built binary is fed through two real FIF
 def conc_extra(pid, n_quick=5, n_thorough=60):
     """Concurrent stage: forced single-preemption schedules on the real correlator under the race detector,
     judged by the property's own oracle on the final outcome."""
-    return [("tracker", TRACKER_OVERLAY, ["-mode", "conc", "-prop", pid, "-n", str(n_thorough)], True,
-             ["-mode", "conc", "-prop", pid, "-n", str(n_quick)])]
+    return [("tracker", TRACKER_OVERLAY, ["-mode", "conc", "-prop", pid, "-n", str(n_thorough), "-cvol", "4", "-volbig"], True,
+             ["-mode", "conc", "-prop", pid, "-n", str(n_quick), "-cvol", "1"])]
 
 
 CONC_ASSUME = ("concurrent stage: the sequential model applies to the daemon because every correlator call is one critical section "
@@ -85,10 +92,10 @@ def tracker(pid, n_quick=160, n_thorough=3000):
     extra = exh_extra(pid) + ((conc_extra(pid) + daemon_extra(pid)) if pid in ("C01", "C02", "C04") else [])
     reg(Spec(
         pid, "Props/%s.v" % pid, harness="tracker", overlay=TRACKER_OVERLAY,
-        args_quick=["-prop", pid, "-n", str(n_quick)],
-        args_thorough=["-prop", pid, "-n", str(n_thorough)],
-        args_search=["-prop", pid, "-n", "1500"],
-        assumptions=TRACKER_ASSUME + [EXH_ASSUME] + ([CONC_ASSUME.replace("<ID>", pid), DAEMON_ASSUME] if len(extra) > 1 else []), modelled=TRACKER_MODELLED,
+        args_quick=["-prop", pid, "-n", str(n_quick), "-vol", "10"],
+        args_thorough=["-prop", pid, "-n", str(n_thorough), "-vol", "40", "-volbig"],
+        args_search=["-prop", pid, "-n", "1500", "-vol", "25", "-volbig"],
+        assumptions=TRACKER_ASSUME + [VOLUME_ASSUME, EXH_ASSUME] + ([CONC_ASSUME.replace("<ID>", pid), DAEMON_ASSUME] if len(extra) > 1 else []), modelled=TRACKER_MODELLED,
         extra_targets=["Model/TrackerCheck.vo"], thorough_extra=extra,
     ))
 
@@ -219,10 +226,10 @@ for _p in ("C05", "C07"):
 
 reg(Spec(
     "C03", "Props/C03.v", harness="tracker", overlay=TRACKER_OVERLAY, race=True,
-    args_quick=["-mode", "conc", "-prop", "C03", "-n", "14"],
-    args_thorough=["-mode", "conc", "-prop", "C03", "-n", "150"],
-    args_search=["-mode", "conc", "-prop", "C03", "-n", "40"],
-    assumptions=TRACKER_ASSUME + [
+    args_quick=["-mode", "conc", "-prop", "C03", "-n", "14", "-cvol", "3"],
+    args_thorough=["-mode", "conc", "-prop", "C03", "-n", "150", "-cvol", "8", "-volbig"],
+    args_search=["-mode", "conc", "-prop", "C03", "-n", "40", "-cvol", "2"],
+    assumptions=TRACKER_ASSUME + [VOLUME_ASSUME,
         "one GenericSyncMap method call = one critical section; nested acquisition (Store(sessions) inside WithLockedValueDo(parked)) is modelled as one block",
         "schedules are forced at the VerifPoint hooks (just before each lock acquisition): exactly the granularity of the model's blocks",
         "data-race freedom is checked by the Go race detector on every explored schedule, not proved",
@@ -315,7 +322,10 @@ SPECS["C16"].thorough_extra = SPECS["C16"].thorough_extra + [_RT]
 SPECS["C16"].search_extra = [_RT]
 SPECS["C16"].assumptions = SPECS["C16"].assumptions + [
     "real-time stage (thorough tier; also run as a search when the generated ticker/cut-off obligations break): eight concurrent "
-    "processors, second half 30-50 s (must correlate) or 130 s (must have been discarded) after the first, silence or unrelated traffic every 7-20 s"]
+    "processors, second half 30-50 s (must correlate) or 130 s (must have been discarded) after the first, silence or unrelated traffic every 7-20 s; "
+    "plus eight processors whose event sink stalls for 20-40 s across the first cleanup tick (one write of an unrelated session does not return, inside "
+    "RemoteLogin's flush or inside AuditdEvent), the first half produced during the stall or well before it, the second half 50-58 s later (must correlate; "
+    "judged only when the MEASURED distance stayed below the minute) or 125 s later (must have been discarded); the stage lasts about 150 s"]
 
 # C03 through the daemon's own wiring: logins on Auditd.Logins || audit lines on Auditd.Audits of the REAL Auditd.Read, forced
 # single-preemption schedules at the GenericSyncMap lock points (victim: Read's loop goroutine inside RemoteLogin, or the parser
